@@ -10,3 +10,4 @@ INVARIANT ExtraLeftSameVerdict
 INVARIANT UntouchedWhenUnconfigured
 INVARIANT SelectedHostDecides
 INVARIANT LiteralIntact
+INVARIANT QuoteExample
